@@ -60,7 +60,7 @@ def run(ctx):
     corp = harness.corpus_files()
     rng.shuffle(corp)
     texts = [t for _, t in corp[:ctx.budget(40, 451)] if len(t) < ctx.budget(8000, 10**7)]
-    for doc in harness.gen_documents(rng, ctx.budget(120, 2000)):
+    for doc in harness.gen_documents(rng, ctx.budget(120, 2000), contract=True):
         lay = harness.random_layout(rng, comments=True)
         lay.comments = True
         texts.append(docs.render(doc, lay)[0])
